@@ -123,6 +123,12 @@ func (w *W) timeOf(t *scen.TimeSpec) time.Time {
 }
 
 func (w *W) value(a *scen.Arg) any {
+	if len(a.X) > 0 && a.S == "" {
+		b := *a
+		b.S = string(a.X)
+		b.X = nil
+		return w.value(&b)
+	}
 	if a.Ref > 0 {
 		if v, ok := w.shared[a.Ref]; ok {
 			return v
